@@ -194,7 +194,7 @@ SegDominates(a, b) == LET i == FirstDiff(SegsT(a), SegsT(b), 1) IN i > 0 /\ Bett
 \* the same segments that admits it only through the trailing-slash leniency
 CandDominates(rules, c, d) ==
   \/ SegDominates(rules[c.r], rules[d.r])
-  \/ c.mode = "exact" /\ d.mode # "exact" /\ rules[c.r].segs = rules[d.r].segs
+  \/ c.mode = "exact" /\ d.mode # "exact" /\ rules[c.r].segs = rules[d.r].segs /\ ~IsPathRule(rules[c.r])
 
 Undominated(rules, C) == {c \in C : ~\E d \in C : CandDominates(rules, d, c)}
 
@@ -237,6 +237,9 @@ Expected(rules, m, p, method) ==
 \* inputs for which the documentation does not determine the result
 OutOfDomain(rules, m, p) ==
   \/ p = <<>>
+  \* the trailing-slash leniency of non-strict rules is documented for one slash; what a doubled
+  \* trailing slash means for them is not
+  \/ (EndsWith(p, <<SLASH, SLASH>>) /\ \E i \in 1..Len(rules) : ~StrictOf(m, rules[i]))
   \/ HasTriple(Norm(p))
   \/ \E i \in 1..Len(rules) : PathUnspecified(rules[i], PartsOf(Norm(p)))
   \/ (m.merge /\ HasDouble(Norm(p)) /\ \E i \in 1..Len(rules) : PathUnspecified(rules[i], PartsOf(MergeSl(Norm(p)))))
@@ -284,5 +287,26 @@ JoinPairs(ps) == IF ps = <<>> THEN <<>>
                  ELSE ps[1][1] \o <<61>> \o ps[1][2] \o (IF Len(ps) > 1 THEN <<38>> \o JoinPairs(Tail(ps)) ELSE <<>>)
 \* q = [kind |-> "none" | "str" | "map", s |-> text, pairs |-> <<<<k, v>>>>] ; map keys/values unreserved
 QueryText(q) == IF q.kind = "str" THEN q.s ELSE IF q.kind = "map" THEN JoinPairs(q.pairs) ELSE <<>>
+
+\* ---------------------------------------------------------------- the C03 verdict on one observed outcome
+(* o = [kind \in match|redirect|notfound|mna|other, rule, args (set), argc, upath (URL path of   *)
+(* the redirect target), methods (set)].  Returns "ok" or the name of the violated clause.       *)
+JudgeOutcome(rules, m, root, path, method, o) ==
+  LET p == Norm(path)
+      e == Expected(rules, m, p, method)
+  IN IF OutOfDomain(rules, m, path) THEN "ok"
+     ELSE CASE o.kind = "match" ->
+                 IF o.rule \in 1..Len(rules) /\ o.argc = Cardinality(o.args) /\ MatchOut(o.rule, o.args) \in e.outs THEN "ok"
+                 ELSE IF \E cd \in Cands(rules, m, p) : cd.r = o.rule /\ cd.args = o.args /\ MethodOK(rules[cd.r], method)
+                      THEN "Priority"
+                 ELSE "MatchNotAdmitted"
+            [] o.kind = "redirect" ->
+                 IF \E x \in e.outs : x.kind = "redirect" /\ o.upath = UrlPathFor(root, x.path) THEN "ok" ELSE "Redirect"
+            [] o.kind = "notfound" ->
+                 IF e.nf THEN "ok" ELSE IF e.outs # {} THEN "NotFoundButAdmitted" ELSE "NotFoundButMethodNotAllowed"
+            [] o.kind = "mna" ->
+                 IF ~e.mna THEN "SpuriousMethodNotAllowed"
+                 ELSE IF e.mreq \subseteq o.methods /\ o.methods \subseteq e.mall THEN "ok" ELSE "AllowedMethods"
+            [] OTHER -> "UnexpectedException"
 
 =============================================================================
